@@ -183,6 +183,10 @@ func (w *world) realCtr(d string, model int) uint32 {
 
 var ctxBG = context.Background()
 
+// OnRefSend, when set, is told about every frame built by the reference sealer
+// (so that trace validation can recognise its origin).
+var OnRefSend func(raw, key []byte, ctr uint32, prot bool)
+
 // Run replays one scenario under one variant. It returns nil if the real code
 // conformed at every step.
 func Run(sc *Scenario, v Variant, st *Stats) (diff *Diff) {
@@ -389,9 +393,16 @@ func (w *world) send(s Step, id [2]int, want []byte, end byte, prot bool, call f
 		}
 		var raw []byte
 		if prot {
+			ctr := w.sealer[d].Ctr
 			raw = w.sealer[d].Seal(end, want).Encode()
+			if OnRefSend != nil {
+				OnRefSend(raw, w.key, ctr, true)
+			}
 		} else {
 			raw = refcodec.Frame{End: end, Body: want}.Encode()
+			if OnRefSend != nil {
+				OnRefSend(raw, w.key, 0, false)
+			}
 		}
 		w.plain[d][id] = want
 		w.wire[d] = append(w.wire[d], wframe{raw: raw, id: id})
